@@ -52,15 +52,17 @@ class Ref:
         self.quiet = False
         self.deadline = None
         self.last_life = now
-        self.last_life_before_tick = before_simultaneous_timer and abs(now - self.tick) < 1e-12
+        self.last_life_before_tick = before_simultaneous_timer and abs(now - self.tick) < 1e-6
 
-    def on_timer(self, now: float) -> None:
+    def on_timer(self, now: float, due: float | None = None) -> None:
+        """A timer that was due at ``due`` runs at ``now`` (later than due when the loop was blocked)."""
         if self.dead_at is not None:
             return
-        if self.deadline is not None and abs(now - self.deadline) < 1e-12:
+        due = now if due is None else due
+        if self.deadline is not None and abs(due - self.deadline) < 1e-6:
             self.dead_at = now
             return
-        if abs(now - self.tick) < 1e-12:
+        if abs(due - self.tick) < 1e-6:
             if self.quiet:
                 self.pings.append(now)
                 if self.deadline is None:
@@ -72,7 +74,8 @@ class Ref:
         return min(self.tick, self.deadline if self.deadline is not None else float("inf"))
 
 
-def run_schedule(kspec: Any, arrivals: tuple[tuple[float, str, str], ...], periods: int = PERIODS) -> dict[str, Any]:
+def run_schedule(kspec: Any, arrivals: tuple[tuple[float, str, str], ...], periods: int = PERIODS,
+                 late: tuple[tuple[int, float], ...] = ()) -> dict[str, Any]:
     """arrivals: sorted tuple of (slot, kind, order) with order in {'io', 'timer'} (only matters on ties)."""
     default = kspec == "default"
     dbg = isinstance(kspec, str) and kspec.startswith("debug:")
@@ -117,6 +120,9 @@ def run_schedule(kspec: Any, arrivals: tuple[tuple[float, str, str], ...], perio
             ts = [h._when for h in w.loop.live_timers() if h._when < t0 + 5e4]
             return min(ts) if ts else float("inf")
 
+        late_map = dict(late)  # ordinal of the timer event -> lateness as a fraction of K (the loop was blocked that long)
+        timer_no = 0
+        was_late = False
         guard = 0
         while True:
             guard += 1
@@ -135,9 +141,17 @@ def run_schedule(kspec: Any, arrivals: tuple[tuple[float, str, str], ...], perio
                 w.drain()
                 ref.on_msg(na, kind, False)
             elif nt < na:
-                w.loop.advance_to(nt)
+                actual = nt
+                d = late_map.get(timer_no)
+                timer_no += 1
+                others = sorted(h._when for h in w.loop.live_timers() if h._when > nt + 1e-9)
+                room = min(na, others[0] if others else float("inf"))
+                if d is not None and nt + d * k < room - 1e-6:
+                    actual = nt + d * k  # no other timer or arrival falls into the blocked stretch
+                    was_late = True
+                w.loop.advance_to(actual)
                 w.drain()
-                ref.on_timer(nt)
+                ref.on_timer(actual, nt)
             else:
                 slot, kind, order = queue.pop(0)
                 w.loop.advance_to(nt)
@@ -167,12 +181,12 @@ def run_schedule(kspec: Any, arrivals: tuple[tuple[float, str, str], ...], perio
                 if typ == ping_id:
                     pings.append(t)
         viol: list[str] = []
-        if pings != ref.pings:
+        if len(pings) != len(ref.pings) or any(abs(a - b) > 1e-6 for a, b in zip(pings, ref.pings)):
             viol.append(f"C10:ping-times:pings on the wire at {[p - t0 for p in pings]} (relative), reference {[p - t0 for p in ref.pings]}")
         if (closed_at is None) != (ref.dead_at is None):
             viol.append(f"C10:dead:{'closed at ' + str(closed_at - t0) if closed_at is not None else 'still alive at the horizon'}, "
                         f"reference: {'dead at ' + str(ref.dead_at - t0) if ref.dead_at is not None else 'alive'}")
-        elif closed_at is not None and abs(closed_at - ref.dead_at) > 1e-9:  # type: ignore[operator]
+        elif closed_at is not None and abs(closed_at - ref.dead_at) > 1e-6:  # type: ignore[operator]
             viol.append(f"C10:dead-time:closed at {closed_at - t0}, reference {ref.dead_at - t0}")  # type: ignore[operator]
         if closed_at is not None and not viol:
             out = w.outcome("req")
@@ -183,7 +197,9 @@ def run_schedule(kspec: Any, arrivals: tuple[tuple[float, str, str], ...], perio
                 viol.append(f"C10:stop:on_stop calls {st}, expected exactly one with expected=False")
             d = closed_at - ref.last_life
             lo, hi = 5.5 * k, 6.5 * k
-            if not (lo - 1e-9 <= d <= hi + 1e-9) or (abs(d - lo) < 1e-9 and not ref.last_life_before_tick and ref.last_life != t0):
+            if was_late:
+                pass  # the derived window assumes a punctual loop
+            elif not (lo - 1e-9 <= d <= hi + 1e-9) or (abs(d - lo) < 1e-9 and not ref.last_life_before_tick and ref.last_life != t0):
                 viol.append(f"C10:window:silent since {ref.last_life - t0}, detected after {d} = {d / k}K, outside (5.5K, 6.5K]")
         return {"viol": viol, "pings": len(pings), "dead": closed_at is not None, "k": k,
                 "obs": {"pings_rel": [p - t0 for p in pings], "closed_rel": None if closed_at is None else closed_at - t0}}
@@ -247,6 +263,15 @@ def run(tier: str, seed: int) -> Result:
         else:
             jobs += schedules(k, 1, KINDS, ())
     jobs += schedules("debug:2.0", 2 if q else 3, KINDS, ("PRESP", "UK"))
+    # a loop that was blocked: the n-th timer runs late by a fraction of K; everything is measured from when it actually ran
+    for k in (1.0, 4.0):
+        for n in range(0, 9):
+            for frac in (0.4, 0.9):
+                jobs.append((k, (), PERIODS, ((n, frac),)))
+                for slot in (5.0, 9.0, 13.0, 21.0):
+                    jobs.append((k, ((slot, "PRESP", "io"),), PERIODS, ((n, frac),)))
+                if n < 8:
+                    jobs.append((k, (), PERIODS, ((n, frac), (n + 1, 0.3))))
     # a non-dyadic value with strictly interior arrivals (no ties possible): K = 7.3, arrivals shifted by K/8
     slots = [s + 0.5 for s in range(0, PERIODS * GRID - 1)]
     for s in slots:
